@@ -350,7 +350,9 @@ impl Runner<'_> {
             }
         }
         let end_key = (s.m.state_hash(), snap_hash(&s.g.snapshot()));
-        if violation.is_none() {
+        // after a panic that is not this monitor's business the graph (and any twin that did not get
+        // the interrupted call) is in no defined state: no end-of-history probes
+        if violation.is_none() && st.foreign_panics == 0 {
             let mut ctx = Ctx { c: self.c, rng: &mut rng, labels: labels.clone() };
             if let Some(msg) = mon.finish(&mut s, &mut ctx) {
                 violation = Some((msg, s.ops.len().saturating_sub(1)));
